@@ -84,6 +84,164 @@ theorem closedNbr_range {G : SimpleG} (hG : GoodGraph G) {v u : Nat} (h1 : 1 ≤
   · exact ⟨h1, h2⟩
   · have := hG.mem h2 hu; exact ⟨this.1, this.2.1⟩
 
+/-! ### `unique_neighborhoods`: sorted, each neighbourhood once -/
+
+theorem lexLe_refl (a : List Nat) : lexLe a a = true := by
+  induction a with
+  | nil => rfl
+  | cons x xs ih => simp [lexLe, ih]
+
+theorem lexLe_total (a b : List Nat) : lexLe a b = true ∨ lexLe b a = true := by
+  induction a generalizing b with
+  | nil => left; rfl
+  | cons x xs ih =>
+    cases b with
+    | nil => right; rfl
+    | cons y ys =>
+      simp only [lexLe, Bool.or_eq_true, decide_eq_true_eq, Bool.and_eq_true, beq_iff_eq]
+      rcases Nat.lt_trichotomy x y with h | h | h
+      · left; left; exact h
+      · subst h
+        rcases ih ys with h' | h'
+        · left; right; exact ⟨rfl, h'⟩
+        · right; right; exact ⟨rfl, h'⟩
+      · right; left; exact h
+
+theorem lexLe_trans {a b c : List Nat} (h1 : lexLe a b = true) (h2 : lexLe b c = true) :
+    lexLe a c = true := by
+  induction a generalizing b c with
+  | nil => rfl
+  | cons x xs ih =>
+    cases b with
+    | nil => simp [lexLe] at h1
+    | cons y ys =>
+      cases c with
+      | nil => simp [lexLe] at h2
+      | cons z zs =>
+        simp only [lexLe, Bool.or_eq_true, decide_eq_true_eq, Bool.and_eq_true, beq_iff_eq] at h1 h2 ⊢
+        rcases h1 with h1 | ⟨rfl, h1⟩
+        · rcases h2 with h2 | ⟨rfl, _⟩
+          · left; omega
+          · left; exact h1
+        · rcases h2 with h2 | ⟨rfl, h2⟩
+          · left; exact h2
+          · right; exact ⟨rfl, ih h1 h2⟩
+
+theorem lexLe_antisymm {a b : List Nat} (h1 : lexLe a b = true) (h2 : lexLe b a = true) : a = b := by
+  induction a generalizing b with
+  | nil => cases b with
+    | nil => rfl
+    | cons y ys => simp [lexLe] at h2
+  | cons x xs ih =>
+    cases b with
+    | nil => simp [lexLe] at h1
+    | cons y ys =>
+      simp only [lexLe, Bool.or_eq_true, decide_eq_true_eq, Bool.and_eq_true, beq_iff_eq] at h1 h2
+      rcases h1 with h1 | ⟨rfl, h1⟩
+      · rcases h2 with h2 | ⟨rfl, _⟩ <;> omega
+      · rcases h2 with h2 | ⟨_, h2⟩
+        · omega
+        · rw [ih h1 h2]
+
+theorem insertLex_sorted {l : List (List Nat)} (v : List Nat)
+    (h : l.Pairwise (fun a b => lexLe a b = true)) :
+    (insertLex l v).Pairwise (fun a b => lexLe a b = true) := by
+  induction l with
+  | nil => simp [insertLex]
+  | cons x xs ih =>
+    rw [List.pairwise_cons] at h
+    unfold insertLex
+    split
+    · rename_i hxv
+      rw [List.pairwise_cons]
+      refine ⟨fun y hy => ?_, ih h.2⟩
+      rcases List.mem_cons.1 ((insertLex_perm xs v).mem_iff.1 hy) with rfl | hy
+      · exact hxv
+      · exact h.1 y hy
+    · rename_i hxv
+      have hvx : lexLe v x = true := by
+        rcases lexLe_total x v with h' | h'
+        · exact absurd h' hxv
+        · exact h'
+      rw [List.pairwise_cons]
+      refine ⟨fun y hy => ?_, List.pairwise_cons.2 h⟩
+      rcases List.mem_cons.1 hy with rfl | hy
+      · exact hvx
+      · exact lexLe_trans hvx (h.1 y hy)
+
+theorem sortLex_sorted (l : List (List Nat)) : (sortLex l).Pairwise (fun a b => lexLe a b = true) := by
+  induction l with
+  | nil => simp [sortLex]
+  | cons x xs ih =>
+    have : sortLex (x :: xs) = insertLex (sortLex xs) x := rfl
+    rw [this]
+    exact insertLex_sorted x ih
+
+theorem dedupAdj_strict {l : List (List Nat)} (h : l.Pairwise (fun a b => lexLe a b = true)) :
+    (dedupAdj l).Pairwise (fun a b => lexLe a b = true ∧ a ≠ b) := by
+  induction l using dedupAdj.induct with
+  | case1 => simp [dedupAdj]
+  | case2 x => simp [dedupAdj]
+  | case3 x y r hxy ih =>
+    rw [dedupAdj, if_pos hxy]
+    exact ih (List.pairwise_cons.1 h).2
+  | case4 x y r hxy ih =>
+    rw [dedupAdj, if_neg hxy]
+    have hp := List.pairwise_cons.1 h
+    have hp2 := List.pairwise_cons.1 hp.2
+    rw [List.pairwise_cons]
+    refine ⟨fun z hz => ?_, ih hp.2⟩
+    rw [mem_dedupAdj] at hz
+    refine ⟨hp.1 z hz, ?_⟩
+    have hne : x ≠ y := by simpa using hxy
+    rcases List.mem_cons.1 hz with rfl | hz'
+    · exact hne
+    · rintro rfl
+      exact hne (lexLe_antisymm (hp.1 y List.mem_cons_self) (hp2.1 x hz'))
+
+/-- "Each neighborhood is listed just once … enumerated in a sorted fashion" -/
+theorem uniqueNeighborhoods_sorted (G : SimpleG) :
+    (uniqueNeighborhoods G).Pairwise (fun a b => lexLe a b = true ∧ a ≠ b) := by
+  unfold uniqueNeighborhoods
+  split
+  · exact List.Pairwise.nil
+  · exact dedupAdj_strict (sortLex_sorted _)
+
+theorem uniqueNeighborhoods_nodup (G : SimpleG) : (uniqueNeighborhoods G).Nodup :=
+  (uniqueNeighborhoods_sorted G).imp (fun h => h.2)
+
+theorem insertSorted_sorted {l : List Nat} (v : Nat) (h : l.Pairwise (· ≤ ·)) :
+    (insertSorted l v).Pairwise (· ≤ ·) := by
+  induction l with
+  | nil => simp [insertSorted]
+  | cons x xs ih =>
+    rw [List.pairwise_cons] at h
+    unfold insertSorted
+    split
+    · rename_i hxv
+      rw [List.pairwise_cons]
+      refine ⟨fun y hy => ?_, ih h.2⟩
+      rcases List.mem_cons.1 ((insertSorted_perm xs v).mem_iff.1 hy) with rfl | hy
+      · exact hxv
+      · exact h.1 y hy
+    · rename_i hxv
+      rw [List.pairwise_cons]
+      refine ⟨fun y hy => ?_, List.pairwise_cons.2 h⟩
+      rcases List.mem_cons.1 hy with rfl | hy
+      · omega
+      · have := h.1 y hy; omega
+
+/-- "Each one is sorted" -/
+theorem closedNbr_sorted (G : SimpleG) (v : Nat) : (closedNbr G v).Pairwise (· ≤ ·) := by
+  unfold closedNbr
+  generalize v :: G.nbrs v = l
+  induction l with
+  | nil => simp [sortNat]
+  | cons x xs ih =>
+    have : sortNat (x :: xs) = insertSorted (sortNat xs) x := rfl
+    rw [this]
+    exact insertSorted_sorted x ih
+
 /-! ### identifiers -/
 
 theorem dId_eq (V v : Nat) (hv : 1 ≤ v) : dId V v = (v : Int) := by
